@@ -103,6 +103,7 @@ var c11Model = porcupine.Model{
 type c11Conn struct {
 	id                    int
 	key                   string
+	phone                 string // what the terminal puts into its header; equals key unless the server runs a custom key function
 	firstSerial           uint16
 	joinCall, leaveCall   int64
 	closedByServer        bool
@@ -121,8 +122,15 @@ type c11Send struct {
 }
 
 // c11History runs one short concurrent history and checks it.
-func c11History(srv *svc.Server, c *core.Collector, seed uint64, hid int, base int) (viol [][2]string, incon bool, witness any, nops int) {
+func c11History(srv *svc.Server, c *core.Collector, seed uint64, hid int, base int, customKey bool) (viol [][2]string, incon bool, witness any, nops int) {
 	bad := func(sig, detail string) { viol = append(viol, [2]string{sig, detail}) }
+	// with the custom key function (key = phone without its last digit) different phones share a key
+	phoneOf := func(key string, r *core.Rand) string {
+		if !customKey {
+			return key
+		}
+		return key + fmt.Sprint(r.Intn(10))
+	}
 	r0 := core.NewRand(seed, "c11h", uint64(hid))
 	nkeys := 2 + r0.Intn(2)
 	keys := make([]string, nkeys)
@@ -190,10 +198,10 @@ func c11History(srv *svc.Server, c *core.Collector, seed uint64, hid int, base i
 		svc.SlowWrite.Store(key, 4*time.Millisecond)
 		defer svc.SlowWrite.Delete(key)
 		r := core.NewRand(seed, "c11b", uint64(hid))
-		owner := &c11Conn{id: int(c11ConnID.Add(1)), key: key}
+		owner := &c11Conn{id: int(c11ConnID.Add(1)), key: key, phone: phoneOf(key, r)}
 		owner.firstSerial = uint16(owner.id)
 		conns = append(conns, owner)
-		t, err := svc.Dial(srv.Addr, r.Bool(), key)
+		t, err := svc.Dial(srv.Addr, r.Bool(), owner.phone)
 		if err != nil {
 			return nil, true, nil, 0
 		}
@@ -259,7 +267,7 @@ func c11History(srv *svc.Server, c *core.Collector, seed uint64, hid int, base i
 		mu.Lock()
 		conns = append(conns, dup)
 		mu.Unlock()
-		if t2, err := svc.Dial(srv.Addr, t.V2019, key); err == nil {
+		if t2, err := svc.Dial(srv.Addr, t.V2019, phoneOf(key, r)); err == nil {
 			dup.joinCall = svc.Stamp()
 			t2.Write(t2.Frame(0x0002, dup.firstSerial, nil))
 			t2.WaitClosed(20 * time.Second)
@@ -289,11 +297,12 @@ func c11History(srv *svc.Server, c *core.Collector, seed uint64, hid int, base i
 			r := core.NewRand(seed, "c11c", uint64(hid*16+g))
 			for i := 0; i < 3; i++ {
 				cn := &c11Conn{id: int(c11ConnID.Add(1)), key: keys[r.Intn(len(keys))]}
+				cn.phone = phoneOf(cn.key, r)
 				cn.firstSerial = uint16(cn.id)
 				mu.Lock()
 				conns = append(conns, cn)
 				mu.Unlock()
-				t, err := svc.Dial(srv.Addr, r.Bool(), cn.key)
+				t, err := svc.Dial(srv.Addr, r.Bool(), cn.phone)
 				if err != nil {
 					dialFailed.Store(true)
 					return
@@ -362,7 +371,7 @@ func c11History(srv *svc.Server, c *core.Collector, seed uint64, hid int, base i
 		count, missing := 0, []string{}
 		mu.Lock()
 		for _, cn := range conns {
-			for _, rec := range svc.LookupAll(cn.key, cn.firstSerial) {
+			for _, rec := range svc.LookupAll(cn.phone, cn.firstSerial) {
 				count++
 				if rec.Count("leave") == 0 {
 					missing = append(missing, fmt.Sprintf("conn %d key %s", cn.id, cn.key))
@@ -410,7 +419,7 @@ func c11History(srv *svc.Server, c *core.Collector, seed uint64, hid int, base i
 	}
 	var listing []desc
 	for _, cn := range conns {
-		recs := svc.LookupAll(cn.key, cn.firstSerial)
+		recs := svc.LookupAll(cn.phone, cn.firstSerial)
 		if len(recs) == 0 {
 			// the server never saw a message on this connection (closed before it was read): no effect on the registry
 			continue
@@ -527,11 +536,23 @@ func c11History(srv *svc.Server, c *core.Collector, seed uint64, hid int, base i
 
 func c11Worker(c *core.Collector, x *Ctx) {
 	c.Rule = "many short histories: 2-3 keys, 4-8 client goroutines each doing connect / first message / more heartbeats / FIN or RST / reconnect (so duplicate-key connects happen by construction), 2-4 sender goroutines doing SendActiveMessage with uniquely tagged commands; " +
-		"seeded delay injection; each history checked per key with porcupine. evaluation = one operation; distinct by (history id, yield trace hash)"
+		"seeded delay injection; every third history against a server with a custom key function (several phone numbers per key); each history checked per key with porcupine. evaluation = one operation; distinct by (history id, yield trace hash)"
 	startProbe()
 	seed := c.Seed*1000 + uint64(x.Batch) + 900000
 	yielding := svc.YieldFromEnv(seed)
 	srv, err := svc.Start(func() service.TerminalEventer { return svc.NewRecorder() })
+	if err != nil {
+		c.Inconclusive()
+		return
+	}
+	// a second server with a custom key function: key = phone number without its last digit (several phones per key)
+	srvK, err := svc.Start(func() service.TerminalEventer { return svc.NewRecorder() }, service.WithKeyFunc(func(m *service.Message) (string, bool) {
+		p := m.JTMessage.Header.TerminalPhoneNo
+		if len(p) < 2 {
+			return p, true
+		}
+		return p[:len(p)-1], true
+	}))
 	if err != nil {
 		c.Inconclusive()
 		return
@@ -553,7 +574,13 @@ func c11Worker(c *core.Collector, x *Ctx) {
 			defer func() { <-sem }()
 			x.Journal.Log(false, "history %d", h)
 			mark := svc.TraceMark()
-			viol, incon, wit, nops := c11History(srv, c, c.Seed, x.Batch*100000+h, 3000000+x.Batch*100000+h*10)
+			custom := h%3 == 2
+			hs := srv
+			if custom {
+				hs = srvK
+				c.Count("histories_with_custom_key_function", 1)
+			}
+			viol, incon, wit, nops := c11History(hs, c, c.Seed, x.Batch*100000+h, 3000000+x.Batch*100000+h*10, custom)
 			th, _ := svc.TraceHash(mark)
 			c.Evals(int64(nops))
 			c.Count("histories", 1)
